@@ -76,7 +76,7 @@ func classify(s *Spec, t *Taint, inMark bool) {
 		"hint", "detail", "handledmsg", "goerrorf", "goerrorfsuffix", "pkgmsg", "pkgwrap", "uwrapnofmt", "uwrapcause", "uwrapsuffix", "uwrapoverride", "uopt", "uwrapfmtold", "rwrapfull",
 		"goerrorfmulti", "umulti", "rmulti":
 		U(0)
-	case "addrerr", "dnsleaf", "dnswrap", "uleafformatter", "uwrapformatter":
+	case "addrerr", "dnsleaf", "dnswrap", "uleafformatter", "uwrapformatter", "uhinter":
 		U(0)
 		U(1)
 	case "uleafsafefmt", "uwrapsafefmt":
